@@ -93,6 +93,8 @@ class C19(Prop):
             if out and out != '/dev/full' and os.path.exists(out): writes[out] = open(out, encoding='utf-8', newline='').read()
             real[cid] = {'code': code, 'diag': len(se) > 0, 'out': so, 'writes': writes, 'args': args, 'mode': mode}
         # build mode
+        legend_pool = ['+--+\n|{r}|\n+--+\n# Legend:\nr = {fill: red;}', '.--.\n|{b}|\n\'--\'\n# Legend:\nb = {stroke: blue;}\ng = {fill: green;}',
+                       'o--{k}\n# Legend:\nk = {opacity:0.5}', '+--+\n|  |\n+--+', 'plain -> text', '{r}\n# Legend:\nr = {fill: black;}']
         nb = 20 if tier == 'quick' else 200
         for i in range(nb):
             d = os.path.join(work, 'b%d' % i); src = os.path.join(d, 'src'); os.makedirs(src)
@@ -102,7 +104,8 @@ class C19(Prop):
             expect_names = []
             for nm in names:
                 ext = rng.choice(['bob', 'bob', 'bob', 'txt', 'BOB'])
-                text = rng.choice(inputs)
+                # half of the files of a directory carry a legend, each a different one: the documents of one build run must not share anything
+                text = rng.choice(legend_pool) if rng.random() < 0.5 else rng.choice(inputs)
                 kind = rng.choice(['T', 'T', 'T', 'dir'])
                 pth = os.path.join(src, nm + '.' + ext)
                 if kind == 'dir': os.makedirs(pth); spec.append('entry:%s:%s:0=E' % (dots(nm), dots(ext)))
